@@ -783,6 +783,11 @@ func (c *Config) autobind() error {
 			continue
 		}
 
+		// introspection types are never bound to user code ("__Type" normalises to "Type")
+		if strings.HasPrefix(t.Name, "__") {
+			continue
+		}
+
 		for i, p := range ps {
 			if p == nil || p.Module == nil {
 				return fmt.Errorf("unable to load %s - make sure you're using an import path to a package that exists", c.AutoBind[i])
